@@ -109,6 +109,8 @@ type Field struct {
 	Ptr      bool
 	Embedded bool
 	Mutable  bool
+	With     []string // further names declared by the same field declaration: P, Q, R int (one doc comment for all)
+	JoinPrev bool     // this field is one of the With names of the field before it (not rendered on its own)
 	Doc      []string // extra doc lines
 	ID       int      // site id of the field line
 	Ref      *TypeRef
@@ -362,6 +364,9 @@ func walkDecl(pkg *Pkg, f *File, d Decl, fn func(SiteInfo)) {
 		ctx := Ctx{Pkg: pkg, File: f, TypeDecl: d}
 		fn(SiteInfo{Site: d.declSite(), Ctx: ctx})
 		for _, fl := range d.Fields {
+			if fl.JoinPrev {
+				continue // shares the line (and the tag) of the declaration's first name
+			}
 			fn(SiteInfo{Site: fl.site(d), Ctx: ctx})
 		}
 	case *FuncDecl:
